@@ -281,11 +281,18 @@ impl Report {
 }
 
 thread_local! { pub static IN_GUARD: std::cell::Cell<u32> = std::cell::Cell::new(0); }
+thread_local! { pub static LAST_PANIC_LOC: std::cell::RefCell<String> = std::cell::RefCell::new(String::new()); }
+/// source location (file:line, path shortened) of the last panic caught by `guarded`
+pub fn last_panic_loc() -> String { LAST_PANIC_LOC.with(|l| l.borrow().clone()) }
 /// panics of the library under test (inside `guarded`) are silent; the harness's own panics are printed
 pub fn install_panic_hook() {
     std::panic::set_hook(Box::new(|info| {
         if IN_GUARD.with(|g| g.get()) == 0 {
             eprintln!("HARNESS PANIC: {}", info);
+        } else if let Some(l) = info.location() {
+            let f = l.file();
+            let f = f.rsplit("/src/").next().unwrap_or(f);
+            LAST_PANIC_LOC.with(|x| *x.borrow_mut() = format!("{}:{}", f, l.line()));
         }
     }));
 }
